@@ -36,13 +36,19 @@ Inductive kind :=
   | KRaw        (* handler reached through [proceed_raw] (login / logout: the handler itself authenticates) *)
   | KGateOnly.  (* handler returns after [check_permission] without touching the server *)
 
+(** Filter of a listing endpoint: an entry is shown iff the caller holds the permission - asked per entry
+    ([has_permission(P, Some(&entry))]) or, in a faulty handler, of the general grant ([has_permission(P, None)]:
+    all entries or none). *)
+Inductive fscope := FEntry | FGeneral.
+Record lfilter := F { f_perm : perm; f_scope : fscope }.
+
 Record route := mkRoute {
   rt_meth : meth;
   rt_pat : list seg;
   rt_gates : list gate;          (* conjunction, in the order in which the code checks them *)
   rt_kind : kind;
   rt_testbed : bool;             (* only when testbed mode is on *)
-  rt_filter : option perm        (* listing endpoint: each entry is shown iff the caller holds this permission on it *)
+  rt_filter : option lfilter     (* listing endpoint: how its entries are filtered *)
 }.
 
 (** ** Canonical form of a table: duplicate gates removed (a conjunction), rows sorted by (path, method) *)
@@ -113,7 +119,7 @@ Definition bulk_op (rest : list seg) : route :=
   mkRoute MPOST (api (Lit "bulk" :: Lit "cas" :: rest)) [login; general CaAdmin] KGate false None.
 (** listing: any logged-in caller, entries filtered by CaRead on the entry *)
 Definition listing (rest : list seg) : route :=
-  mkRoute MGET (api rest) [login] KOpen false (Some CaRead).
+  mkRoute MGET (api rest) [login] KOpen false (Some (F CaRead FEntry)).
 (** no credentials needed *)
 Definition public (m : meth) (pat : list seg) : route := mkRoute m pat [] KOpen false None.
 Definition public_raw (m : meth) (pat : list seg) : route := mkRoute m pat [] KRaw false None.
@@ -287,8 +293,14 @@ Definition authorize (t : list route) (testbed : bool) (a : auth) (q : request) 
   end.
 
 (** Listing endpoints show exactly the entries the caller may read (cas.rs:47-63, bulk.rs:48-66). *)
-Definition listing_of (a : auth) (p : perm) (all : list handle) : list handle :=
+Definition readable (a : auth) (p : perm) (all : list handle) : list handle :=
   filter (fun h => auth_allows a p (Some h)) all.
+
+Definition listing_of (a : auth) (f : lfilter) (all : list handle) : list handle :=
+  match f_scope f with
+  | FEntry => readable a (f_perm f) all
+  | FGeneral => if auth_allows a (f_perm f) None then all else []
+  end.
 
 (** ** Classification used by [spec_sane] *)
 Inductive family := FLogin | FPub | FCa | FRta.
